@@ -147,9 +147,11 @@ theorem flatDoc_sels {sels : Selections} (h : ∀ y, InSels sels (.sel y) → In
   rw [hflat] at this
   cases this
 
+omit H in
 theorem flatDoc_docSets {t : Spec.TSet} (ht : t ∈ Spec.docSets s d) : Spec.spreadsOfSels t.sels = [] :=
   flatDoc_sels hflat (docSets_inDoc ht)
 
+omit H in
 theorem flatDoc_docF {a : FInfo} (ha : DocF s d (fullLinks d) a) : FlatBelow a := by
   apply flatDoc_sels hflat
   intro y hy
@@ -189,7 +191,7 @@ theorem flat_semantic (hj : Spec.mergingJudged s d = true) :
       have := hclean _ hset
       rw [topHolds_flat fa] at this
       exact pairwise_of_sublist_pairs _ (fun x y hs hrn hh => this ⟨x, y, hs, hrn, hh⟩)
-    have hft := flatDoc_docSets H hflat ht
+    have hft := flatDoc_docSets hflat ht
     rw [hk, fieldsInSetCanMerge_succ, collectSet_flat s d (fullLinks d) _ _ hft, allPairs_iff, List.pairwise_map]
     have := hclean t ht
     rw [topHolds_flat hft] at this
@@ -201,11 +203,11 @@ theorem flat_semantic (hj : Spec.mergingJudged s d = true) :
       by_cases hkey : (toM x).key = (toM y).key
       · have dx := DocF.ofSet ht hx
         have dy := DocF.ofSet ht hy
-        exact pairOK_of_clean H hcb k x y dx dy (flatDoc_docF H hflat dx) (flatDoc_docF H hflat dy)
+        exact pairOK_of_clean H hcb k x y dx dy (flatDoc_docF hflat dx) (flatDoc_docF hflat dy)
           (hxy hx hy (by simpa [toM_key, rnOf] using hkey))
       · simp [pairOK, hkey]
   · intro hspec t ht hth
-    have hft := flatDoc_docSets H hflat ht
+    have hft := flatDoc_docSets hflat ht
     rw [topHolds_flat hft] at hth
     obtain ⟨a, b, hs, hrn, hh⟩ := hth
     have ha : a ∈ collectFields s.view (fullLinks d) t.parent t.sels := hs.subset (by simp)
@@ -216,7 +218,7 @@ theorem flat_semantic (hj : Spec.mergingJudged s d = true) :
       have h1 := inDocSel_sdepth (docSels_mem_inDocSel s d _ da.inDoc)
       simp only [FInfo.sel', sdepthSel] at h1
       omega
-    have hB := holds_flat H hh da db (flatDoc_docF H hflat da) (flatDoc_docF H hflat db) k hdep
+    have hB := holds_flat H hh da db (flatDoc_docF hflat da) (flatDoc_docF hflat db) k hdep
     have hkey : ((toM a).key != (toM b).key) = false := by
       simp only [toM_key]
       have : responseName a.node = responseName b.node := hrn
@@ -311,7 +313,7 @@ theorem overlap_flat_iff (s : Schema) (d : QueryDoc) (H : OvHyps s d) (hflat : S
     obtain ⟨e, he, hset⟩ := eventSet_complete s d evs hw H.wp hu hac hused t ht
     obtain ⟨st1, st2, hstep⟩ := silentRun_mem hrun e he
     have hr := step_silent_run hset hstep
-    have hft := flatDoc_docSets H hflat ht
+    have hft := flatDoc_docSets hflat ht
     have h1 := overlapRun_silent_flat s.view d e.links t.parent t.sels hft st1 _ hr rfl
     intro hth
     exact h1 (topHolds_transport s.view d _ _ _ _ (docSets_linkedAll ht) (eventSet_linked s.view d (hlk e he) hset) hth)
